@@ -270,6 +270,8 @@ class Session:
         if mn or mxn:
             return ("tie", "model driver failed: %s" % (mn or mxn))
         ic, ix = norm_c(ic), norm_ref(ix)
+        if any(l.startswith("bad-op") for l in ic + ix):
+            return ("malformed", "op file outside the grammar (a driver answered bad-op)")
         if note_c:
             # where did the C interface stop? the C++ interface's next observation is what it should have produced
             nxt = ix[len(ic)] if len(ic) < len(ix) else "<end>"
@@ -316,6 +318,16 @@ class Session:
             self.nontrivial.add(hash(ops))
         if len(self.samples) < 3:
             self.samples.append(wc.op_lines(ops)[:40])
+
+
+def klass(msg):
+    """coarse class of a failure message (kept while shrinking): what kind of observation differs"""
+    m = re.search(r"`([^` ]*)", msg)
+    first = re.sub(r"\d+", "#", m.group(1)) if m else ""
+    if "dies after" in msg:
+        m2 = re.search(r"(AddressSanitizer: [\w-]+|runtime error|terminate called[^|]*|Segmentation fault|LeakSanitizer)", msg)
+        first = m2.group(1) if m2 else "abort"
+    return first
 
 
 def shrink_keep_flags(ops, fails, budget=60):
@@ -380,7 +392,7 @@ def _run(ctx, sess):
                     files.append(("random:%d/%d/%d" % (mask, dv, i), g.text(n)))
     with cf.ThreadPoolExecutor(max(2, vlib.NPROC - 2)) as ex:
         results = list(ex.map(lambda f: sess.check_file(f[1], count=True), files))
-    failures = {"oracle": [], "abort": [], "tie": []}
+    failures = {"oracle": [], "abort": [], "tie": [], "malformed": []}
     for (name, ops), r in zip(files, results):
         sess.account(ops)
         if r:
@@ -389,14 +401,18 @@ def _run(ctx, sess):
     for kind in ("oracle", "abort"):
         seen = set()
         for name, ops, msg in failures[kind]:
-            sig = re.sub(r"0x[0-9a-f]+|\d+", "#", msg)[:70]
-            if sig in seen or reported >= 4:
+            sig = klass(msg) + ("|misaligned" if "misaligned" in msg else "")
+            if sig in seen or reported >= 6:
                 continue
             seen.add(sig)
-            small = shrink_keep_flags(ops, lambda t, k=kind: (lambda x: x is not None and x[0] == k)(sess.check_file(t)))
+            small = shrink_keep_flags(ops, lambda t, k=kind, c=klass(msg): (lambda x: x is not None and x[0] == k and klass(x[1]) == c)(sess.check_file(t)))
             r2 = sess.check_file(small)
             ctx.violation(small, "C18 fails on the implementation (%s, %s): %s" % (kind, name, (r2 or (0, msg))[1][:700]))
             reported += 1
+    if not reported and failures["malformed"] and not failures["tie"]:
+        name, ops, msg = failures["malformed"][0]
+        ctx.violation(ops, "check machinery: %d generated op files are outside the harness grammar (first %s): %s"
+                      % (len(failures["malformed"]), name, msg), no_input=True)
     if not reported and failures["tie"]:
         name, ops, msg = failures["tie"][0]
         small = shrink_keep_flags(ops, lambda t: (lambda x: x is not None and x[0] == "tie")(sess.check_file(t)))
